@@ -1,6 +1,8 @@
 import SC.Properties.C02
 import SC.Proofs.SrcCompare
 import SC.Proofs.SrcCompareB2
+import SC.Proofs.SrcEqualFold
+import SC.Proofs.SrcEqualFoldB
 /-!
 # C02 — source-level theorems
 
@@ -19,7 +21,7 @@ theorem source_equalFold (s t : Bytes) (h : GoSsa.Heap)
     (hls : s.length < 4611686018427387904) (hlt : t.length < 4611686018427387904) :
     GoSsa.Ret Gen.Src.str false Gen.Src.str_EqualFold [.str s 0 0, .str t 1 0] h [.bool (S.equalFold s t)] h ∧
     Std.equalFoldS s t = some (S.equalFold s t) := by
-  have hc := GoSsa.Str.Compare s t 0 0 1 0 h hls hlt
+  have hc := GoSsa.Str.Compare Gen.Src.str GoSsa.Str.find_clamp s t 0 0 1 0 h hls hlt
   have hw := GoSsa.Str.EqualFold_of_Compare _ _ h h _ hc
   have e : decide (A.Compare (GoSsa.cfg false) s t = 0) = A.EqualFold (GoSsa.cfg false) s t := by
     unfold A.EqualFold
@@ -34,7 +36,7 @@ theorem source_equalFold_bytcase (s t : Bytes) (h : GoSsa.Heap)
     (hls : s.length < 4611686018427387904) (hlt : t.length < 4611686018427387904) :
     GoSsa.Ret Gen.Src.byt true Gen.Src.byt_EqualFold [.str s 0 0, .str t 1 0] h [.bool (S.equalFold s t)] h ∧
     Std.equalFoldB s t = some (S.equalFold s t) := by
-  have hc := GoSsa.Byt.Compare s t 0 0 1 0 h hls hlt
+  have hc := GoSsa.Byt.Compare Gen.Src.byt GoSsa.Byt.find_clamp s t 0 0 1 0 h hls hlt
   have hw := GoSsa.Byt.EqualFold_of_Compare _ _ h h _ hc
   have e : decide (A.Compare (GoSsa.cfg true) s t = 0) = A.EqualFold (GoSsa.cfg true) s t := by
     unfold A.EqualFold
